@@ -75,6 +75,14 @@ func c08Main(args []string) error {
 		after := []string{"beginr 50", "dump r50", "check r50", "endr 50",
 			"beginw", "x w createif - 6e78", "x w put 6e78 6b 76", "dump w", "commit",
 			"beginr 51", "dump r51", "check r51", "endr 51"}
+		// further writers that recycle pages (a reader held across the failure is re-dumped after each)
+		for j := 0; j < 3; j++ {
+			after = append(after, "beginw", "x w createif - 6e78")
+			for i := 0; i < 4+cr.intn(12); i++ {
+				after = append(after, fmt.Sprintf("x w put 6e78 %x @%d:%d", fmt.Sprintf("n%03d", cr.intn(40)), 10+cr.intn(o.ps), cr.intn(256)))
+			}
+			after = append(after, "dump w", "commit", "DUMPR1")
+		}
 		epilogue := []string{"close", "open " + o.String(), "beginr 60", "dump r60", "check r60", "endr 60", "close"}
 		// pass 0: count the I/O calls of the target commit
 		var probe strings.Builder
@@ -93,14 +101,24 @@ func c08Main(args []string) error {
 				var L []string
 				L = append(L, prefix...)
 				if withReader {
-					L = append(L, "beginr 1", "dump r1")
+					// the reader is older than the last successful commit, so pages of ITS version are pending when the failure happens
+					L = append(L, "beginr 1", "dump r1", "beginw", "x w createif - 6662",
+						fmt.Sprintf("x w put 6662 %x @%d:3", "f0000", 20+o.ps/3), "x w createif - 6f6c64", "x w put 6f6c64 6b 76", "dump w", "commit", "dump r1")
 				}
 				L = append(L, txn...)
 				L = append(L, fmt.Sprintf("commitfail %d", k))
 				if withReader {
 					L = append(L, "dump r1")
 				}
-				L = append(L, after...)
+				for _, l := range after {
+					if l == "DUMPR1" {
+						if withReader {
+							L = append(L, "dump r1")
+						}
+						continue
+					}
+					L = append(L, l)
+				}
 				if withReader {
 					L = append(L, "dump r1", "endr 1")
 				}
